@@ -11,16 +11,12 @@ import (
 var _ = codec.IsValidRID
 var _ = reserr.ErrInvalidRequest
 
-// replies counts the frames written with Requester.Reply.
-//@ ghost var replies int
-
 // The requester (the connection) is specified by what its methods promise: each request method
 // invokes the callback it is given exactly once (proved for *wsConn in package server);
 // Reply writes one frame.
 //@ func Requester.Reply
 //@   trusted
-//@   ensures replies == old(replies) + 1
-//@   assigns replies
+//@   assigns nothing
 //@ func Requester.GetResource
 //@   trusted
 //@   resolves callback exactly-once
@@ -65,8 +61,8 @@ var _ = reserr.ErrInvalidRequest
 // id (and a valid method part for call/auth), unsubscribe only with a positive count.
 //@ func HandleRequest
 //@   requires req != nil
-//@   ensures[C07] result != nil ==> replies == old(replies) && handed() == old(handed())
-//@   ensures[C07] result == nil ==> (replies - old(replies)) + (handed() - old(handed())) == 1
+//@   ensures[C07] result != nil ==> callcount("Reply") == old(callcount("Reply")) && handed() == old(handed())
+//@   ensures[C07] result == nil ==> (callcount("Reply") - old(callcount("Reply"))) + (handed() - old(handed())) == 1
 //@   assert[C14] req.GetResource#1: codec.predValidRID(arg0, true)
 //@   assert[C14] req.SubscribeResource#1: codec.predValidRID(arg0, true)
 //@   assert[C14,C08] req.UnsubscribeResource#1: codec.predValidRID(arg0, true) && arg1 > 0
@@ -78,19 +74,19 @@ var _ = reserr.ErrInvalidRequest
 // Each response closure writes exactly one frame.
 //@ closure HandleRequest#1
 //@   requires req != nil && r != nil
-//@   ensures[C07] replies == old(replies) + 1
+//@   ensures[C07] callcount("Reply") == old(callcount("Reply")) + 1
 //@ closure HandleRequest#2
 //@   requires req != nil && r != nil
-//@   ensures[C07] replies == old(replies) + 1
+//@   ensures[C07] callcount("Reply") == old(callcount("Reply")) + 1
 //@ closure HandleRequest#3
 //@   requires req != nil && r != nil
-//@   ensures[C07] replies == old(replies) + 1
+//@   ensures[C07] callcount("Reply") == old(callcount("Reply")) + 1
 //@ closure HandleRequest#4
 //@   requires req != nil && r != nil
-//@   ensures[C07] replies == old(replies) + 1
+//@   ensures[C07] callcount("Reply") == old(callcount("Reply")) + 1
 //@ closure HandleRequest#5
 //@   requires req != nil && r != nil
-//@   ensures[C07] replies == old(replies) + 1
+//@   ensures[C07] callcount("Reply") == old(callcount("Reply")) + 1
 //@ closure HandleRequest#6
 //@   requires req != nil && r != nil
-//@   ensures[C07] replies == old(replies) + 1
+//@   ensures[C07] callcount("Reply") == old(callcount("Reply")) + 1
